@@ -11,11 +11,9 @@ def main():
     import harness.props as props
     ids = [json.loads(l)["id"] for l in (VERIF / "properties.jsonl").read_text().splitlines() if l.strip()]
     mods = {}
-    for m in pkgutil.iter_modules(props.__path__):
-        if m.name.startswith("c") and m.name[1:].isdigit():
-            mod = importlib.import_module(f"harness.props.{m.name}")
-            if getattr(mod, "CLAIMED", True):
-                mods[mod.ID] = mod
+    claimed = json.loads((VERIF / "harness" / "claimed.json").read_text())   # integrated and verified to pass on the unchanged tree
+    for pid in claimed:
+        mods[pid] = importlib.import_module(f"harness.props.{pid.lower()}")
     checks = []
     for pid in ids:
         if pid not in mods:
